@@ -347,8 +347,12 @@ theorem globRel_of_sections (hinj : Function.Injective hb) (g₁ g₂ : Global)
     · simp only [envNames, hcc, if_true, List.map_append] at hv
       have := List.append_inj hv (by simp)
       exact ⟨this.2, this.1⟩
+  have hsem : listedEnvVars.map (fun n => envMeaning n (getenv g₁ n)) = listedEnvVars.map (fun n => envMeaning n (getenv g₂ n)) := by
+    apply List.map_congr_left
+    intro n hn
+    rw [List.map_inj_left.1 hboth.1 n hn]
   simp only [globRel, GlobRel.mk.injEq]
-  exact ⟨e1, e2, c3, c4, e6, c1, OptLevel.flag_inj c6, e3, e4, e5, e7, c5, c6', c7, c8, c9, hx, hboth.1, hboth.2⟩
+  exact ⟨e1, e2, c3, c4, e6, c1, OptLevel.flag_inj c6, e3, e4, e5, e7, c5, c6', c7, c8, c9, hx, hsem, hboth.2⟩
 
 theorem ownRel_of_section (hinj : Function.Injective hb) (g₁ g₂ : Global) (d₁ d₂ : PkgData)
     (hm : cfg.contentHash = false → ∀ f₁ ∈ diskFiles g₁ d₁, ∀ f₂ ∈ diskFiles g₂ d₂, f₁.overlay = none → f₂.overlay = none →
@@ -574,10 +578,10 @@ theorem run_append (s : State φ Obj) (a b : List Step) :
 
 /-- two units with the same fingerprint: after `build, edit, build` the second build hands out the FIRST unit's archive -/
 theorem served_stale (g₁ g₂ : Global) (t₁ t₂ : PkgT) (hk : fp (key cfg hb fp g₂ t₂) = fp (key cfg hb fp g₁ t₁))
-    (hn : (t₁.data.name != "main") = true) :
+    (hn : (t₁.data.name != "main") = true) (hkind₁ : cachedKind t₁.data = true) (hkind₂ : cachedKind t₂.data = true) :
     served cfg hb fp compileRel ⟨g₁, [t₁]⟩ [.build {}, .edit ⟨g₂, [t₂]⟩, .build {}]
       = some [compileRel (relevant g₁ t₁)] := by
-  simp [served, run, step, State.init, buildProg, buildPkg, lookup, List.find?, hk, hn]
+  simp [served, run, step, State.init, buildProg, buildPkg, lookup, List.find?, hk, hn, hkind₁, hkind₂]
 
 end Invariant
 
